@@ -49,12 +49,13 @@ type loaded struct {
 }
 
 type Interp struct {
-	clk    *vh.Clock
-	chain  *base.SlotChain
-	caseNo int
-	rules  map[string]*loaded // by op-level resource name
-	order  []string
-	raw    bool
+	clk     *vh.Clock
+	chain   *base.SlotChain
+	caseNo  int
+	rules   map[string]*loaded // by op-level resource name
+	order   []string
+	cleared map[string]bool // resources whose rule was cleared (address-less probes are still allowed)
+	raw     bool
 }
 
 var curCase int
@@ -76,6 +77,7 @@ func (it *Interp) Reset() {
 	_, _ = outlier.LoadRules(nil)
 	stat.ResetResourceNodeMap()
 	it.rules = map[string]*loaded{}
+	it.cleared = map[string]bool{}
 	it.order = nil
 	it.clk.SetMs(startMs)
 	settle()
@@ -124,8 +126,8 @@ func scheduled(res string) map[string]bool {
 	return out
 }
 
-func (it *Interp) load(t []string) string {
-	// load <res> <strategy> <retryMs> <minReq> <statIntervalMs> <bucketCount> <maxRt> <thr f:> <probeNum> <maxEj f:> <active>
+func (it *Interp) load(t []string, perRes bool) string {
+	// load|loadres <res> <strategy> <retryMs> <minReq> <statIntervalMs> <bucketCount> <maxRt> <thr f:> <probeNum> <maxEj f:> <active>
 	name := t[1]
 	thr, ok1 := vh.ParseFBits(t[8])
 	pe, ok2 := vh.ParseFBits(t[10])
@@ -155,6 +157,21 @@ func (it *Interp) load(t []string) string {
 		// a retry timer that fires after its case is over reports "recovered" and so ends its chain
 		RecoveryCheckFunc: func(string) bool { return curCase != gen },
 	}
+	if perRes {
+		// outlier.LoadRuleOfResource: the per-resource path (an invalid rule is reported and the old one stays in force)
+		changed, err := outlier.LoadRuleOfResource(res, r)
+		if err != nil {
+			return "err"
+		}
+		if !changed {
+			return "same"
+		}
+		if _, ok := it.rules[name]; !ok {
+			it.order = append(it.order, name)
+		}
+		it.rules[name] = &loaded{cbPart: cbPart, rule: r}
+		return "ok"
+	}
 	if outlier.IsValidRule(r) != nil || circuitbreaker.IsValidRule(r.Rule) != nil {
 		return "invalid"
 	}
@@ -172,9 +189,27 @@ func (it *Interp) load(t []string) string {
 	return "ok"
 }
 
+func (it *Interp) clear(name string) string {
+	if err := outlier.ClearRuleOfResource(it.rn(name)); err != nil {
+		return "err"
+	}
+	if _, ok := it.rules[name]; ok {
+		delete(it.rules, name)
+		var o []string
+		for _, n := range it.order {
+			if n != name {
+				o = append(o, n)
+			}
+		}
+		it.order = o
+		it.cleared[name] = true
+	}
+	return "ok"
+}
+
 // one request: Entry (the outlier slot's check), optional callee + error, clock += rt, Exit
 func (it *Interp) request(name, addr string, fail bool, rt uint64) string {
-	if _, ok := it.rules[name]; !ok {
+	if _, ok := it.rules[name]; !ok && !(it.cleared[name] && addr == "") {
 		panic("no rule for " + name)
 	}
 	res := it.rn(name)
@@ -250,7 +285,11 @@ func subset(xs, ys []string) bool {
 func (it *Interp) Step(t []string, op string) string {
 	switch t[0] {
 	case "load":
-		return it.load(t)
+		return it.load(t, false)
+	case "loadres":
+		return it.load(t, true)
+	case "clearres":
+		return it.clear(t[1])
 	case "clock":
 		ms := vh.U(t[1])
 		if ms < it.clk.CurrentTimeMillis() {
